@@ -68,6 +68,9 @@ def gen_cfg(rng, i):
                 names_level=names_level,
                 table_fmt=rng.choice(['%s_version', '%s_version', '%s_history', 'v_%s']),
                 schema=rng.choice([None, None, 'other']),
+                # a default schema on the MetaData ('main' is SQLite's own name for the primary database); a table-level
+                # schema overrides it, and the version table follows the PARENT TABLE
+                meta_schema=rng.choice([None, None, None, 'main']),
                 inherit=inherit)
 
 
@@ -148,7 +151,7 @@ def make_build(cfg):
             pkcols = [c for c in cfg['cols'] if c['pk']]
             # joined child: its key is the parent's key
             attrs['id'] = mkcol(dict(pkcols[0], name='id', key='id', autoinc=False),
-                                pk_fk=('other.p.id' if cfg['schema'] else 'p.id'))
+                                pk_fk=((cfg['schema'] or cfg.get('meta_schema')) + '.p.id' if (cfg['schema'] or cfg.get('meta_schema')) else 'p.id'))
             for c in cfg['cols']:
                 if not c['pk']:
                     attrs[c['key']] = mkcol(c)
@@ -163,7 +166,7 @@ def make_build(cfg):
         elif cfg['inherit'] == 'assoc':
             # the configured columns make up a many-to-many association TABLE (no model): its own key columns, the
             # random payload columns and two NOT NULL reference columns; it is versioned through the relationship
-            pfx = 'other.' if cfg['schema'] else ''
+            pfx = (cfg['schema'] or cfg.get('meta_schema')) + '.' if (cfg['schema'] or cfg.get('meta_schema')) else ''
             t = sa.Table('m', Base.metadata, *([mkcol(c) for c in cfg['cols']] +
                                                [sa.Column('l_id', sa.Integer, sa.ForeignKey(pfx + 'a.id'), nullable=False),
                                                 sa.Column('r_id', sa.Integer, sa.ForeignKey(pfx + 'b.id'), nullable=False)]),
@@ -220,7 +223,8 @@ def _observe(cfg):
         opts['transaction_column_name'], opts['end_transaction_column_name'], opts['operation_type_column_name'] = cfg['names']
     plugins = [PropertyModTrackerPlugin()] if cfg['tracker'] else []
     try:
-        env = E.Env(options=opts, plugins=plugins, build=make_build(cfg), attach=(['other'] if cfg['schema'] else []))
+        env = E.Env(options=opts, plugins=plugins, build=make_build(cfg), attach=(['other'] if cfg['schema'] else []),
+                    metadata_schema=cfg.get('meta_schema'))
         with env:
             sc = env.sc
             pt = env.parent_table
@@ -353,7 +357,7 @@ def nontrivial(case, obs):
 def features(case, obs):
     cfg = case['cfg']
     f = ['inherit=' + cfg['inherit'], 'strategy=' + cfg['strategy'], 'names=' + cfg['names_level'] + ':' + cfg['names'][0],
-         'fmt=' + cfg['table_fmt'], 'schema=%s' % cfg['schema'], 'tracker=%s' % cfg['tracker']]
+         'fmt=' + cfg['table_fmt'], 'schema=%s' % cfg['schema'], 'meta_schema=%s' % cfg.get('meta_schema'), 'tracker=%s' % cfg['tracker']]
     if obs['exc']:
         f.append('exception:' + obs['exc'].split(':')[0])
     return f
